@@ -25,9 +25,7 @@ def liftE {α} : Except Err α → Except String α
 def jDoc : Option Str → Json
   | none => Json.null
   | some d =>
-    match fmtDoc 0 d with
-    | .ok c => cps c
-    | .error e => jErr (errTag e)
+    cps (fmtDoc 0 d)
 
 def jRawDoc : Option Str → Json
   | none => Json.null
@@ -156,8 +154,7 @@ def itemExpand (jd : Option Str → Json) (it : Item) : Json :=
 
 def itemFlags (it : Item) : Json :=
   match it.terms? with
-  | some ts => Json.mkObj [("wf", Json.bool (wfTerms ts)), ("noD4", Json.bool (cleanTerms false ts)),
-      ("clean", Json.bool (cleanTerms true ts))]
+  | some ts => Json.mkObj [("wf", Json.bool (wfTerms ts)), ("noD4", Json.bool (cleanTerms ts))]
   | none => Json.null
 
 def jParse (r : Except Err (List Item)) (f : List Item → Json) : Json :=
@@ -170,7 +167,7 @@ def handleItems (j : Json) : Except String Json := do
   | .error e =>
     if e.startsWith "E:" then pure (Json.mkObj [("construct", Json.str (e.drop 2).toString)]) else throw e
   | .ok items =>
-    match items.findSome? formatErr with
+    match (none : Option Err) with
     | some e => pure (Json.mkObj [("orig", jList jItem items), ("fmt", jErr (errTag e))])
     | none =>
       let toks := (items.map layoutItem).flatMap toksItem
@@ -180,9 +177,7 @@ def handleItems (j : Json) : Except String Json := do
         ("toks", jList jTok toks),
         ("parsed", jParse parsed (jList jItemRaw)),
         ("toks2", jParse parsed (fun its =>
-          match its.findSome? formatErr with
-          | some e => jErr (errTag e)
-          | none => jList jTok ((its.map layoutItem).flatMap toksItem))),
+          jList jTok ((its.map layoutItem).flatMap toksItem))),
         ("expand", jList (itemExpand jDoc) items),
         ("expand2", jParse parsed (jList (itemExpand jRawDoc))),
         ("flags", jList itemFlags items)])
@@ -210,9 +205,8 @@ def handle (j : Json) : Except String Json := do
     let d ← getCps j "doc"
     let ind ← getNat j "indent"
     let rest ← getCps j "rest"
-    match fmtDoc ind d with
-    | .error e => pure (Json.mkObj [("fmt", jErr (errTag e))])
-    | .ok c => pure (Json.mkObj [("fmt", cps c), ("scan", jScan (scanB q3 (c ++ q3 ++ rest)))])
+    let c := fmtDoc ind d
+    pure (Json.mkObj [("fmt", cps c), ("scan", jScan (scanB q3 (c ++ q3 ++ rest)))])
   | "esc" => do
     let s ← getCps j "s"
     let rest ← getCps j "rest"
